@@ -9,3 +9,12 @@ claim("C05",
       "Trusted: rustc nightly MIR construction; RFC 8259 §7 / TOML 1.0 tables transcribed in rules/c05.py; core::fmt template "
       "encoding of the pinned toolchain; <f64 as Display>. Not decided: numeric text, YAML/TOML document structure, round-trip equality.",
       "DESIGN.md §2 C05")
+claim("C14",
+      "MIR finite-domain decision table of the UTF-8 decoder vs Unicode Table 3-7; who-may-construct/write + exactly-one-commit path counting",
+      "Decides structural necessary conditions of C14: (R3) the lexer's UTF-8 decoder accepts exactly the well-formed sequences of "
+      "Unicode Table 3-7, exhaustively over all byte-class combinations and CFG paths; (R2) the trivia filter's decision table over "
+      "(flag, TokenKind); (R1) tiling by construction: Token values only come from commit_token with span (old start,end) and "
+      "start:=end, cursor fields have no other writers, every successful lexing path commits exactly once, EOF only at end of input. "
+      "Literal values (text blocks, numbers, operator munch) are behavioural and not decided.",
+      "Trusted: rustc nightly MIR; Unicode Table 3-7 transcription in rules/c14.py. Assumes SpanManager::intern_span stores what it is given (C16).",
+      "DESIGN.md §2 C14")
